@@ -26,11 +26,11 @@ CHECKS = {
          "Laws are checked both as equalities with the specification's distance and relationally between observed values.", "6 C08"),
  "C09": (MC, "LengthCode.tla on the pinned table: TLC model check of the table laws (MCLengthCode), Apalache over unbounded integers for symbolic lengths (LengthCodeApa), and TLC trace validation of the exhaustive native sweep of all 2^32 lengths compressed to 171 runs plus all 256 raw codes (TraceLen.tla)",
          "Exhaustive over the whole 32-bit domain (run-length compressed observation judged run by run); table laws proved for symbolic lengths by SMT.", "6 C09"),
- "C10": (MC, "Reference.tla finalisation lattice: TLC model MCFinalizeLattice (all option pairs on arbitrary small states) + TLC trace validation of 32-option fans at the published limits (TraceGen.tla)",
+ "C10": (MC, "Reference.tla finalisation lattice: TLC model MCFinalizeLattice (all option pairs on arbitrary small states) + MCOptions (every builder-call history, replayed into the real GeneratorOptions) + TLC trace validation of 32-option fans at the published limits (TraceGen.tla) + hash_file on sparse files of exactly MAX bytes (TraceStream.tla)",
          "Every recorded fan is checked against the reference, the permissiveness lattice and the exact length-error condition.", "6 C10"),
  "C11": (MC, "Generator.tla at narrow counter width W=6 (MCGenLimit: every history across MAX, 2^W-4, 2^W) + TLC trace validation at W=32 from injected states next to the three real boundaries (TraceGen.tla)",
          "Small-scope exhaustive for the counter logic; real-width traces for the boundaries themselves.", "6 C11"),
- "C12": (MC, "Stream.tla read-loop state machine: TLC model check of every reader script in small scope incl. liveness (MCStream) + TLC trace validation of every read call made by hash_stream against scripted readers and of hash_file (TraceStream.tla; multi-MiB content through the closed form GenUpdatePeriodic, itself model checked against byte-by-byte stepping)",
+ "C12": (MC, "Stream.tla read-loop state machine: TLC model check of every reader script in small scope incl. liveness (MCStream) + every reader script of MCStreamReplay run against the real hash_stream + TLC trace validation of every read call made by hash_stream against scripted readers and of hash_file (TraceStream.tla; multi-MiB content through the closed form GenUpdatePeriodic, itself model checked against byte-by-byte stepping)",
          "Every logged read call and the returned value must be a behaviour of Stream.tla; small scope exhaustive, real buffer sizes by traces.", "6 C12"),
  "C13": (MC, "EasyCompare semantics (parse left, then right, side tag) in TraceHash.tla judged by TLC on recorded compare / compare_with events over all outcome combinations",
          "Relational check against both parse results and the specification's distance.", "6 C13"),
@@ -40,7 +40,7 @@ CHECKS = {
          "Strict-build field sweeps through text and bytes; generator side on all recorded finalisations.", "6 C15"),
  "C16": (MC, "Serde.tla (SerOf / DeAllows / format framing) judged by TLC on recorded serde events: real formats (serde_json, ciborium, postcard) and a scripted mock (de)serializer answering with every visitor event (TraceHash.tla)",
          "Every recorded (human-readable?, visitor event, payload) combination in three feature sets; acceptance iff the matching parser accepts; no panic.", "6 C16"),
- "C17": ("exploration", "monitored executions judged by the TLA+ trace specifications (TraceHash / TraceGen / TraceStream): every event of every family in checked (debug-assertions + overflow-checks), 'unsafe'-feature and plain release builds must be a normal return the specification allows or a documented panic; adversarial Read impls; AddressSanitizer execution mode in the thorough tier",
+ "C17": ("exploration", "monitored executions judged by the TLA+ trace specifications (TraceHash / TraceGen / TraceStream): every event of every family in checked (debug-assertions + overflow-checks), 'unsafe'-feature and plain release builds must be a normal return the specification allows or a documented panic; adversarial Read impls (over-claiming, lying) incl. every reader script of MCStreamReplay in unsafe / release / opt-level-0 builds; AddressSanitizer execution mode in the thorough tier",
          "Totality and the truth of every invariant!() over the recorded corpus in every configuration; memory safety only as far as it surfaces behaviourally (panic, crash, changed result) - reduced level, see DESIGN.md section 7.", "6 C17"),
  "C18": (MC, "Alloc.tla allocation budget per action judged by TLC on recorded events carrying the allocator-call count of a counting global allocator, in five (thorough: eleven) configurations incl. the library built with neither std nor alloc",
          "Budget 0 for every core action on every recorded event; the no-std/no-alloc build is a precondition of its trace.", "6 C18"),
